@@ -143,9 +143,9 @@ def enum_runtime(ctx):
             yield {"mode": "checkseq", "vs": [g, good[0], b_]}
     yield {"mode": "checkseq", "vs": good + good}
     # the same from several threads at once: compatible versions stay compatible
-    for nth in (2, 8):
+    for nth in (2, 4, 8, 16):
         for rep in range(3):
-            yield {"mode": "checkpar", "threads": nth, "rounds": 30000, "rep": rep,
+            yield {"mode": "checkpar", "threads": nth, "rounds": 400000, "rep": rep,
                    "vs": good + ["%d.%d.%d-rc1" % (have[0], have[1], rep), "%d.0.0" % have[0]]}
 
 
